@@ -27,7 +27,7 @@ func TestScenarios(t *testing.T) {
 	go func() {
 		for {
 			time.Sleep(2 * time.Second)
-			if st := started.Load(); st != 0 && time.Now().Unix()-st > int64(vt.EnvInt("VERIF_HANG_SEC", 150)) {
+			if st := started.Load(); st != 0 && time.Now().Unix()-st > int64(vt.EnvInt("VERIF_HANG_SEC", 40)) {
 				out.Emit(Event{Ev: "Hung", Err: cur.Load().(string), Off: -1})
 				out.Flush()
 				fmt.Println("HUNG", cur.Load().(string))
